@@ -197,6 +197,13 @@ fn emissions_part(s: &mut Scen, rng: &mut Rng, rep: &mut Report) {
     let fee_mint = matches!(kind, TokenKind::T22Fee { .. });
     let dec = *rng.pick(&[6u8, 9, 0]);
     let emint = s.w.add_mint(kind, dec);
+    // half of the fee mints have a fee change scheduled: for a later epoch (the old fee keeps being charged) or for the
+    // current one (the new fee is the one the token program withholds from exactly now on)
+    if let TokenKind::T22Fee { max_fee, .. } = kind {
+        if rng.chance(1, 2) {
+            s.w.schedule_fee_change(&emint, *rng.pick(&[0u16, 50, 2500, 900]), max_fee, *rng.pick(&[0u64, 0, 3]));
+        }
+    }
     let tp = s.w.token_program_of(&emint);
     let total: u64 = match rng.below(4) {
         0 => 1 + rng.below(50),                 // small pool: the cap binds
